@@ -59,6 +59,18 @@ CRYPTO_TRUSTED = [
 ]
 
 PROPS = {
+    "C07": {
+        "modules": ["PasskeyVerif.Props.C07"],
+        "props_files": ["PasskeyVerif/Props/C07.lean"],
+        "translators": [tr_flags],
+        "harness": [["gen", "C07"]],
+        "trusted": AUTH_TRUSTED + ["cancellation = dropping the future between two polls: the harness's store and user-validation mocks yield once before every call, so the suspension points of a ceremony are exactly its store / user-validation calls; the model replays the first j events of the trace (Model/AuthCancel.lean)"],
+        "assumptions": ["the store performs each call atomically (it either accepted a save / update or did not): a store whose own save can be torn is outside the model",
+                        "suspension points inside the store's or the user-validation method's own implementation are not modelled"],
+        "level_text": "Kernel-checked for every store kind, content, request, user-validation behaviour and fault schedule: a registration has at most one store effect, the save of the complete passkey built from the request; if it returns an error the store content is unchanged; replaying any prefix of its trace (= cancellation at that suspension point) gives the store before or the store before with that one complete credential saved; success implies the accepted save is in the trace and the store holds the credential; a save refused by the store is returned as that error. An authentication has at most one effect, the update of the first credential of the lookup with its counter advanced by one (saturating); every prefix of its trace leaves the store unchanged or with that one update; a refused update and a failed lookup are never turned into success. Tied to the code by injecting every status code of a set of 6 at every store call index (singly, and pairs) and by dropping the real futures after 0..7 polls, with byte-exact comparison of results, traces and stores, and the Spec evaluated on the implementation's observations.",
+        "level_note": "Trusted: Lean kernel; axioms propext/Classical.choice/Quot.sound; the hand model; the yielding mocks; atomic store calls.",
+        "rule": "registrations: 4 stores (contract store, map, slot, Arc<Mutex<contract store>>) x counter/hmac on-off x 8 request shapes (exclude list x rk x prf) x [single fault at call 0..3 x 6 status codes, 5 fault pairs, cancellation after 0..7 polls incl. refused verification], each followed by a normal registration; authentications: 4 stores x 5 counter values (none, 0, 41, 2^32-2, 2^32-1) x allow list on/off x 3 extension shapes x [fault at lookup / update x 6 codes, double fault, cancellation after 0..5 polls], each followed by a normal authentication. quick = a fixed half to third of the product, thorough = all of it.",
+    },
     "C09": {
         "modules": ["PasskeyVerif.Props.C09"],
         "props_files": ["PasskeyVerif/Props/C09.lean"],
